@@ -41,6 +41,7 @@ type faultRec struct {
 	Persisted    string `json:"persisted,omitempty"`
 	PostSize     string `json:"post_size,omitempty"`
 	PostContents string `json:"post_contents,omitempty"`
+	PostHeight   string `json:"post_height,omitempty"`
 }
 
 func classify(before, normal, after string, field int) string {
@@ -122,6 +123,18 @@ func persistedCheck(w *runner.World, t string) string {
 	}
 	if uint64(n) != root.Size {
 		return fmt.Sprintf("the root persisted after the failed call records size %d but %d entries are reachable from it", root.Size, n)
+	}
+	// ... and every entry the version holds is found by a lookup (the recorded height fits the structure)
+	if p := strings.TrimPrefix(it.Payload, "l:"); p != "" {
+		for _, kv := range strings.Split(p, ",") {
+			e := strings.SplitN(kv, "=", 2)
+			if len(e) != 2 {
+				continue
+			}
+			if g := w.Exec("get 9998 " + e[0]); g.Outcome != "ok" || g.Payload != "v:"+e[1] {
+				return fmt.Sprintf("the version persisted after the failed call (height %d) holds %s but a lookup answers %s %s", root.Height, kv, g.Outcome, g.Payload)
+			}
+		}
 	}
 	return "ok"
 }
@@ -206,6 +219,7 @@ func faultsMain(args []string) int {
 						if !rec.Unchanged {
 							rec.Before, rec.After = before, after
 							rec.PostSize, rec.PostContents = classify(before, normalAfter, after, 0), classify(before, normalAfter, after, 2)
+							rec.PostHeight = classify(before, normalAfter, after, 1)
 						}
 					} else {
 						rec.RetrySame = true
